@@ -118,6 +118,22 @@ DimensionOK(r, np) ==
 UgOK(exp, r, np) ==
   C.has_ug => /\ ObsOK(C.obs_ug) /\ SameExactly(ObsTable(C.obs_ug), exp)
               /\ IF np = 0 THEN C.ug[1] = 0 ELSE C.ug = <<np, Dim(r), Dim(r)>>
+\* ... and its gradient part is the array get_grad(p) gives: C.gg_diff = max |get_unitary_and_grad(p)[1] - get_grad(p)| in units of
+\* 1e-9 as measured by the harness (-1: not comparable).  Gradients are not on the exact domain; this compares two answers of the
+\* implementation with each other, within GradTol, and says nothing about either being the derivative.
+GradTol == 100
+GradSameOK(np) == (C.has_ug /\ np > 0) => (C.gg_diff >= 0 /\ C.gg_diff <= GradTol)
+\* Aliasing: for the composing constructors under which the gradient slices of the part reappear through an injective linear map
+\* (dagger, tag, control, embedding, placement at a location: slices 1..NParams(part) of the gate are images of the part's slices;
+\* frozen parameters: a sub-family of them), two slices of the gate may be the same matrix only if the part's slices are.
+\* C.ug_eq / d.eq = pairs <<i, j>> (0-based, i < j) of equal slices of the gate's / the part's gradient, as observed.
+AliasOK(d) ==
+  IF ~C.has_ug \/ Len(d.sub) # 1 THEN TRUE
+  ELSE LET m == NParams(d.sub[1])
+           mine == {pr \in ToSet(C.ug_eq) : pr[2] < m}
+       IN CASE d.k \in {"dagger", "tagged", "controlled", "embedded", "vlg"} -> mine \subseteq ToSet(d.sub[1].eq)
+            [] d.k = "frozen" -> (d.sub[1].eq = <<>>) => (C.ug_eq = <<>>)
+            [] OTHER -> TRUE
 
 NamedVerdict ==
   LET exp == GateTable(C.name, C.p, C.r) IN
@@ -125,6 +141,7 @@ NamedVerdict ==
   ELSE IF ~ObsOK(C.obs) \/ ~SameExactly(ObsTable(C.obs), exp) THEN "named-gate-matrix"
   ELSE IF C.has_x /\ (~ObsOK(C.obs_x) \/ ~SameExactly(ObsTable(C.obs_x), exp)) THEN "expression-backend"
   ELSE IF ~UgOK(exp, C.r, ParamArity(C.name, C.p)) THEN "unitary_and_grad-value"
+  ELSE IF ~GradSameOK(ParamArity(C.name, C.p)) THEN "unitary_and_grad-value:gradient-differs-from-get_grad"
   ELSE "ok"
 
 \* a constant gate built from a table (ConstantUnitaryGate, PermutationGate via its own name, IdentityGate ...)
@@ -134,6 +151,8 @@ ComposedVerdict ==
   ELSE IF ~DimensionOK(Rad(d), NParams(d)) THEN "dimension"
   ELSE IF ~ObsOK(C.obs) \/ ~SameExactly(ObsTable(C.obs), exp) THEN "composition"
   ELSE IF ~UgOK(exp, Rad(d), NParams(d)) THEN "unitary_and_grad-value"
+  ELSE IF ~GradSameOK(NParams(d)) THEN "unitary_and_grad-value:gradient-differs-from-get_grad"
+  ELSE IF ~AliasOK(d) THEN "unitary_and_grad-value:gradient-slices-aliased"
   ELSE "ok"
 
 \* gate.get_inverse() evaluated at get_inverse_params(p), composed with the gate at p, is the identity
